@@ -97,10 +97,21 @@ func newC12World(specs []*CfgSpec, debug bool) (*c12World, error) {
 	for i, cfg := range build {
 		var m *cors.Middleware
 		var err error
-		if i == 1 {
+		switch i {
+		case 1:
 			m = new(cors.Middleware)
 			err = m.Reconfigure(cfg)
-		} else {
+		case 2: // reached from another configuration, in debug mode, through passthrough
+			m, err = cors.NewMiddleware(viaOther)
+			if err == nil {
+				m.SetDebug(true)
+				if err = m.Reconfigure(cfg); err == nil {
+					if err = m.Reconfigure(nil); err == nil {
+						err = m.Reconfigure(cfg)
+					}
+				}
+			}
+		default:
 			m, err = cors.NewMiddleware(*cfg)
 		}
 		if err != nil {
@@ -249,7 +260,7 @@ func c12RunHistory(r *Run, l *Local, cs c12Case) {
 
 func TestVerif_C12(t *testing.T) {
 	r := newRun(t, "C12")
-	r.Rule("worlds of three live middlewares (two built from one shared Config value - one by NewMiddleware, one by Reconfigure on a zero value - and one from another configuration) x debug x histories of adversarial steps: overwrite/re-slice/grow every slice of the Config argument after the call, of every Config() result, " +
+	r.Rule("worlds of three live middlewares (two built from one shared Config value - one by NewMiddleware, one by Reconfigure on a zero value - and one with another configuration, reached by reconfiguring a middleware of a third configuration through passthrough) x debug x histories of adversarial steps: overwrite/re-slice/grow every slice of the Config argument after the call, of every Config() result, " +
 		"a wrapped handler overwriting in place (and beyond length, within capacity) every request- and response-header slice it can reach on every non-preflight path, ordinary requests of all kinds, Reconfigure with an equal configuration that is poisoned afterwards. After every step probes are compared with the answers of a fresh never-touched middleware (full suite after the last step). " +
 		"evaluation = one probe; non-trivial = distinct (world, history), by hash; every (step kind) x (probe kind) pair occurs. The race phase hammers shared middlewares from 16 goroutines under -race.")
 	r.Assume("the wrapped handler is the only adversary inside the request path: what a custom ResponseWriter or an outer middleware could reach on the preflight path (where the wrapped handler never runs) is outside the statement of C12")
